@@ -105,6 +105,7 @@ DAQMX_SCALINGS = {
     'daqmx-subtract': R.props_for([None, None, {'type': 'Subtract', 'left': 0, 'right': 1}]),
     'daqmx-subtract-rev': R.props_for([None, None, {'type': 'Subtract', 'left': 1, 'right': 0}]),
     'daqmx-add': R.props_for([None, None, {'type': 'Add', 'left': 0, 'right': 1}]),
+    'daqmx-scaler-only': R.props_for([None, None]),   # the channel's output is raw scaler 1 itself
     'daqmx-linear': R.props_for([None, None, {'type': 'Linear', 'slope': 2.0, 'intercept': 1.0, 'src': 1}]),
 }
 
@@ -213,7 +214,7 @@ def _worker(item):
     snames = list(SCALINGS) if t in NUMERIC else (['none'] + list(DAQMX_SCALINGS) if t == 'DAQmx' else ['none'])
     seen = set()
     for sname in snames:
-      for big, il in [(b_, i_) for b_ in ((False, True) if sname in ('none', 'Linear', 'AddRawRaw') else (False,))
+      for big, il in [(b_, i_) for b_ in ((False, True) if (sname in ('none', 'Linear', 'AddRawRaw') or t == 'DAQmx') else (False,))
                       for i_ in ((False, True) if (t in G.TYPES and G.TYPES[t][1] is not None and sname in ('none', 'Linear')) else (False,))]:
         for L in (0, 1, 6):
             reads, probs = check_file(t, sname, L, seed, big, il)
